@@ -1,7 +1,9 @@
 package c19
 
 import (
+	"errors"
 	"fmt"
+	"reflect"
 	"strconv"
 	"strings"
 	"sync"
@@ -193,6 +195,8 @@ func genStep(t *rapid.T) Step {
 type ScenCase struct {
 	Steps []Step `json:"steps"`
 	Shots []Shot `json:"shots"`
+	// gun option `redirect: true`; a Shot whose behaviour has a Redir answers its step with redirects in either case
+	Redirect bool `json:"redirect,omitempty"`
 }
 
 // Shot: which step of this invocation misbehaves (-1 none) and how.
@@ -210,6 +214,11 @@ func genScen(t *rapid.T) ScenCase {
 		c.Steps = append(c.Steps, genStep(t))
 	}
 	n := rapid.IntRange(2, 6).Draw(t, "shots")
+	c.Redirect = rapid.IntRange(0, 2).Draw(t, "redirectOption") == 0
+	redirOneIn := 8
+	if c.Redirect {
+		redirOneIn = 2
+	}
 	for j := 0; j < n; j++ {
 		s := Shot{MisStep: -1}
 		if j < n-1 && rapid.IntRange(0, 2).Draw(t, "mis") != 0 {
@@ -220,6 +229,13 @@ func genScen(t *rapid.T) ScenCase {
 				s.Beh = announceBeh(t) // the HEAD step asks about a huge resource
 			} else {
 				s.Beh = genScenBeh(t)
+			}
+			if rapid.IntRange(0, redirOneIn-1).Draw(t, "redirected") == 0 {
+				// redirects before that answer, or (half of the time) before the answer of a well-behaved target
+				if rapid.Bool().Draw(t, "redirectedToGood") {
+					s.Beh = goodBehFor(c.Steps[s.MisStep])
+				}
+				s.Beh.Redir = genRedir(t)
 			}
 		}
 		c.Shots = append(c.Shots, s)
@@ -324,17 +340,25 @@ func checkScen(c ScenCase, o *vf.Obs) error {
 	// first-step requests seen so far
 	var smu sync.Mutex
 	shot := -1
+	watch := newRedirWatch()
 	tg.Reset(func(seq int, r *target.Rec) target.Resp {
 		step := -1
 		fmt.Sscanf(r.RequestURI, "/s%d", &step)
 		smu.Lock()
 		// keep-alives are off, so Go's transport never silently retries: every step-0 request opens a new invocation
-		if step == 0 {
+		// - except the follow-up requests of a redirected step 0, which net/http marks with a Referer
+		if step == 0 && r.Header.Get("Referer") == "" {
 			shot++
 		}
 		cur := shot
 		smu.Unlock()
 		if cur >= 0 && cur < len(c.Shots) && c.Shots[cur].MisStep == step {
+			if !watch.seen(cur) {
+				return goodBehFor(c.Steps[step]).respFor(r.Method)
+			}
+			if resp, ok := c.Shots[cur].Beh.Redir.answer(fmt.Sprintf("/s%d", step), r.RequestURI, "http", tg.Addr()); ok {
+				return resp
+			}
 			return c.Shots[cur].Beh.respFor(r.Method)
 		}
 		if step >= 0 && step < len(c.Steps) {
@@ -349,13 +373,22 @@ func checkScen(c ScenCase, o *vf.Obs) error {
 	pool := map[string]any{
 		"id": "p",
 		// no keep-alive: a reset/close then hits a fresh connection and Go's transport does not silently retry
-		"gun":     map[string]any{"type": "http/scenario", "target": tg.Addr(), "response-header-timeout": "400ms", "disable-keep-alives": true},
+		"gun":     map[string]any{"type": "http/scenario", "target": tg.Addr(), "response-header-timeout": "400ms", "disable-keep-alives": true,
+			"redirect": c.Redirect},
 		"ammo":    map[string]any{"type": "http/scenario", "file": name, "limit": len(c.Shots)},
 		"result":  map[string]any{"type": "phout", "destination": out},
 		"rps":     map[string]any{"type": "once", "times": len(c.Shots) + 5},
 		"startup": map[string]any{"type": "once", "times": 1},
 	}
-	if err := runPool(pool); err != nil {
+	runErr, err := runPoolWatched(pool, watch)
+	var hung *runawayErr
+	if errors.As(err, &hung) {
+		return &runawayErr{why: fmt.Sprintf("%v (http/scenario gun, redirect %v, shots %+v)\n%s", err, c.Redirect, c.Shots, scenarioYAML(c)), stacks: hung.stacks}
+	}
+	if err == nil && runErr != nil {
+		err = fmt.Errorf("the run was aborted: %v", runErr)
+	}
+	if err != nil {
 		return fmt.Errorf("%v\nshots %+v\n%s", err, c.Shots, scenarioYAML(c))
 	}
 	lines, data, err := readPhout(out)
@@ -374,10 +407,11 @@ func checkScen(c ScenCase, o *vf.Obs) error {
 		return fmt.Errorf("%d scenario invocations left samples, %d were shot\n%s\n%s", len(groups), len(c.Shots), data, scenarioYAML(c))
 	}
 	mis, goodAfter := 0, false
+	rs := redirSeen{}
 	for j, g := range groups {
 		s := c.Shots[j]
 		// a HEAD step answered with the size of a huge resource got a legal answer: the invocation met only good ones
-		legalHead := s.MisStep >= 0 && headAnnounce(c.Steps[s.MisStep], s.Beh)
+		legalHead := s.MisStep >= 0 && headAnnounce(c.Steps[s.MisStep], s.Beh) && s.Beh.Redir == nil
 		if legalHead {
 			o.Class("head_announces_huge_on_" + c.Steps[s.MisStep].Post)
 			o.ClassIf(c.Steps[s.MisStep].Post != "none", "head_announces_huge_postprocessed")
@@ -391,7 +425,17 @@ func checkScen(c ScenCase, o *vf.Obs) error {
 				return fmt.Errorf("invocation %d sample %d is tagged %q, expected the scenario and step name %q\n%s", j, i, l.tag, wantTag, data)
 			}
 		}
-		if s.MisStep < 0 || legalHead {
+		// a step whose redirects a following gun follows to the answer of a well-behaved target met only good ones, too
+		followedToGood := false
+		if s.MisStep >= 0 && s.Beh.Redir != nil && len(g) > s.MisStep {
+			st := c.Steps[s.MisStep]
+			done, err := judgeRedirected(s.Beh.Redir, c.Redirect, g[s.MisStep], fmt.Sprintf("invocation %d step %d", j, s.MisStep), st.Post != "none", rs)
+			if err != nil {
+				return fmt.Errorf("%v (%d requests seen by the target for it)\nshots %+v\n%s\n%s", err, watch.count(j), c.Shots, data, scenarioYAML(c))
+			}
+			followedToGood = !done && (plainGood(s.Beh, st) || headAnnounce(st, s.Beh))
+		}
+		if s.MisStep < 0 || legalHead || followedToGood {
 			if len(g) != len(c.Steps) {
 				return fmt.Errorf("invocation %d met only well-behaved responses but left %d samples for %d steps\n%s\n%s", j, len(g), len(c.Steps), data, scenarioYAML(c))
 			}
@@ -406,8 +450,11 @@ func checkScen(c ScenCase, o *vf.Obs) error {
 			continue
 		}
 		mis++
+		if s.Beh.Redir != nil {
+			o.Class("mis_redirect_on_" + c.Steps[s.MisStep].Post)
+		}
 		o.Class("mis_" + s.Beh.Kind + "_on_" + c.Steps[s.MisStep].Post)
-		if s.Beh.Kind == "announce" {
+		if s.Beh.Kind == "announce" && c.Steps[s.MisStep].Method != "HEAD" {
 			buffered := c.Steps[s.MisStep].Post != "none" // the gun reads the body into memory for the postprocessors
 			o.ClassIf(buffered, "lying_length_postprocessed")
 			o.ClassIf(buffered && unallocatable(s.Beh.Len), "lying_length_unallocatable_postprocessed")
@@ -434,10 +481,18 @@ func checkScen(c ScenCase, o *vf.Obs) error {
 	}
 	o.ClassIf(anyNeg, "substr_negative_index")
 	o.ClassIf(anyBeyond, "substr_negative_index_beyond_value")
+	o.ClassIf(c.Redirect, "redirect_option_on")
+	rs.classes(o, "scenario_gun")
 	if mis > 0 && goodAfter {
 		o.NonTrivial()
 	}
 	return nil
+}
+
+// plainGood: b is the answer of a well-behaved target to step st (redirects before it aside)
+func plainGood(b Beh, st Step) bool {
+	g := goodBehFor(st)
+	return b.Kind == "ok" && b.Body == "" && len(b.Header) == 0 && reflect.DeepEqual(b.Prices, g.Prices)
 }
 
 // xpathClasses labels what a var/xpath step with generated expressions was given to read.
@@ -493,5 +548,5 @@ func substrClasses(c ScenCase, i int) (neg, beyond bool) {
 func TestScenarioGun(t *testing.T) {
 	pand.Init()
 	r := vf.Start(t, "C19")
-	vf.Check(r, genScen, vf.LoadTolerant(25*time.Millisecond, checkScen))
+	vf.Check(r, genScen, vf.LoadTolerant(25*time.Millisecond, hangsMustRepeat(checkScen)))
 }
